@@ -2815,6 +2815,12 @@ impl RaftNode {
         }
 
         let mut persistent = self.persistent.write();
+
+        // As in `propose`: the role may have changed since the check above.
+        if self.leadership.read().role != RaftState::Leader {
+            return Err(ChainError::ConsensusError("not leader".into()));
+        }
+
         let index = persistent.array_len_as_log_index() + 1;
         let term = persistent.current_term;
 
@@ -3983,12 +3989,21 @@ impl RaftNode {
     pub async fn send_heartbeats(&self) -> Result<()> {
         // Build all messages in a sync block (no await)
         let messages: Vec<(NodeId, Message)> = {
-            if self.leadership.read().role != RaftState::Leader {
-                return Ok(());
-            }
+            // Role and term are read together, under the log lock that every
+            // step-down holds while it raises the term: a caller running
+            // beside the message loop (client proposals, the heartbeat task)
+            // must not pair "still leader" with the term of the election that
+            // has just deposed this node, and send entries under a term it
+            // does not lead.
+            let term = {
+                let persistent = self.persistent.read();
+                if self.leadership.read().role != RaftState::Leader {
+                    return Ok(());
+                }
+                persistent.current_term
+            };
 
             let peers = self.peers.read().clone();
-            let term = self.persistent.read().current_term;
             let commit_index = self.volatile.read().commit_index;
 
             peers
